@@ -191,11 +191,10 @@ func opcodeAtomic(high byte, mid byte, low byte) opcode.Opcode {
 }
 
 func addrAddImm(a model.Addr, imm int32) model.Addr {
-	if imm >= 0 {
-		return a + model.Addr(imm)
-	} else {
-		return a - model.Addr(-imm)
-	}
+	// Conversion of a negative value sign extends it, so the addition
+	// wraps around to a subtraction (this works even for minimal int32,
+	// whose negation overflows).
+	return a + model.Addr(int64(imm))
 }
 
 func immConst(t immType, i instruction, w expr.Width) expr.Const {
